@@ -16,6 +16,7 @@ inductive Res where
   | ret (v : Value)
   | panic
   | oom
+  deriving DecidableEq
 
 def wrapI64 (i : Int) : Int :=
   let m := i % 18446744073709551616
